@@ -26,6 +26,9 @@ def spec():
         "/name": op("getName", {"200": js(st)}),
         "/create": op("createItem", {"201": js(ref("Item"))}, "post"),
         "/upsert": op("upsertItem", {"200": js(ref("Item")), "201": js(ref("Other"))}, "put"),
+        "/upsert2": op("upsertReversed", {"201": js(ref("Other")), "200": js(ref("Item"))}, "put"),
+        "/maybe2": op("nothingOrItem", {"204": {"description": "nothing"}, "200": js(ref("Item"))}),
+        "/flavours": op("getFlavours", {"200": {"description": "ok", "content": {"application/json": {"schema": ref("Item")}, "application/hal+json": {"schema": ref("Other")}}}}),
         "/accept": op("acceptJob", {"202": {"description": "accepted"}}, "post"),
         "/gone": op("removeItem", {"204": {"description": "gone"}}, "delete"),
         "/maybe": op("maybeItem", {"200": js(ref("Item")), "204": {"description": "nothing"}}),
